@@ -1,5 +1,5 @@
 from .. import facts
-from ..rules import codec, status, geometry
+from ..rules import codec, status, geometry, prefetch
 
 
 def run(ck):
@@ -13,3 +13,4 @@ def run(ck):
     status.r_fill_word(ck, P, 'C19-R8')
     status.r19_9_delegated_rectangle(ck, P)
     geometry.r2_raw_writers_bounded(ck, P, rows=False)
+    prefetch.r11_tail_access_needs_remaining_count(ck, P, 'C19-R10')
